@@ -398,3 +398,165 @@ Proof.
   unfold df_groupby_steps. rewrite (df_groupby_correct cols by_ hint kr Hpre Hkr). cbn [bind].
   exact (run_gsteps_correct cols by_ hint kr Hpre Hkr ss ddf r H).
 Qed.
+
+(* ================================================================== E. Session.aggregate_* *)
+Lemma valid_indexedb_sound i v : valid_indexedb i v = true -> valid_indexed i v.
+Proof.
+  unfold valid_indexedb, valid_indexed. intros H. apply orb_prop in H. destruct H as [H|H].
+  - left. apply andb_prop in H. destruct H as [H1 H2]. split; apply Z.eqb_eq; assumption.
+  - right. apply andb_prop in H. destruct H as [H H4]. apply andb_prop in H. destruct H as [H H3].
+    apply andb_prop in H. destruct H as [H1 H2].
+    split; [apply sortedb_sorted; exact H1|]. split; [apply Z.leb_le; exact H2|]. split; apply Z.eqb_eq; assumption.
+Qed.
+
+Lemma row_neqb_spec (a b:list cell) : negb (row_eqb a b) = false <-> a = b.
+Proof. rewrite negb_false_iff. exact (keqb_true GroupSpec.rowle grow_total grow_antisym a b). Qed.
+
+Lemma bounds_from_cons2' {A} (nq:A -> A -> bool) i x y t :
+  bounds_from nq i (x :: y :: t)
+  = if nq x y then (i + 1) :: bounds_from nq (i + 1) (y :: t) else bounds_from nq (i + 1) (y :: t).
+Proof. reflexivity. Qed.
+
+Lemma bounds_from_map {A B} (g:A -> B) (nA:A -> A -> bool) (nB:B -> B -> bool) :
+  (forall x y, nB (g x) (g y) = nA x y) -> forall l i, bounds_from nB i (map g l) = bounds_from nA i l.
+Proof.
+  intros H. induction l as [|x t IH]; intros i; [reflexivity|]. destruct t as [|y t']; [reflexivity|].
+  change (map g (x :: y :: t')) with (g x :: g y :: map g t'). rewrite !bounds_from_cons2', H.
+  change (g y :: map g t') with (map g (y :: t')). rewrite IH. reflexivity.
+Qed.
+
+Lemma spans_ref_map {A B} (g:A -> B) (nA:A -> A -> bool) (nB:B -> B -> bool) :
+  (forall x y, nB (g x) (g y) = nA x y) -> forall l, spans_ref nB (map g l) = spans_ref nA l.
+Proof.
+  intros H l. destruct l as [|x t]; [reflexivity|]. unfold spans_ref. cbn [map].
+  change (g x :: map g t) with (map g (x :: t)). rewrite (bounds_from_map g nA nB H).
+  unfold len. rewrite map_length. reflexivity.
+Qed.
+
+Lemma neq_exact_map {A B} (g:A -> B) (nA:A -> A -> bool) (nB:B -> B -> bool) :
+  neq_test nA -> neq_test nB -> (forall x y, g x = g y -> x = y) -> forall x y, nB (g x) (g y) = nA x y.
+Proof.
+  intros HA HB Hg x y. destruct (nA x y) eqn:E1; destruct (nB (g x) (g y)) eqn:E2; try reflexivity.
+  - apply HB in E2. apply Hg in E2. apply HA in E2. congruence.
+  - apply HA in E1. subst y. assert (nB (g x) (g x) = false) by (apply HB; reflexivity). congruence.
+Qed.
+
+Lemma field_get_spans_rows c : column_okb c = true -> field_get_spans c = Ok (spans_ref rneqb (index_rows c)).
+Proof.
+  intros Hok. destruct c as [l|l|i v]; cbn [field_get_spans index_rows column_okb] in *.
+  - rewrite get_spans_for_field_ref. f_equal. unfold scalar_rows. symmetry. apply spans_ref_map.
+    apply neq_exact_map; [exact Z_neqb_spec|exact rneqb_spec|]. intros x y E. inversion E. reflexivity.
+  - rewrite get_spans_for_field_ref. f_equal. symmetry. apply spans_ref_map.
+    apply neq_exact_map; [exact bytes_neqb_spec|exact rneqb_spec|]. intros x y E. inversion E. reflexivity.
+  - rewrite get_spans_for_index_string_field_ref by (apply valid_indexedb_sound; exact Hok). f_equal. symmetry.
+    apply spans_ref_map.
+    apply neq_exact_map; [exact bytes_neqb_spec|exact rneqb_spec|]. intros x y E. inversion E. reflexivity.
+Qed.
+
+Lemma runs_spans_eq rows : runs_spans rows = spans_ref rneqb rows.
+Proof.
+  unfold runs_spans. rewrite <- (map_id rows) at 1.
+  apply (spans_ref_map (fun r : list cell => r) rneqb (fun a b => negb (row_eqb a b))).
+  exact (neq_exact_map (fun r : list cell => r) rneqb (fun a b => negb (row_eqb a b))
+           rneqb_spec row_neqb_spec (fun x y E => E)).
+Qed.
+
+Lemma index_rows_len1 c r : In r (index_rows c) -> length r = 1%nat.
+Proof.
+  destruct c as [l|l|i v]; cbn [index_rows]; unfold scalar_rows; intros H; apply in_map_iff in H;
+    destruct H as [x [<- _]]; reflexivity.
+Qed.
+
+Lemma sorted_rows_reduce {V R} (dv:V) (f:list V -> R) rows vals :
+  length rows = length vals -> (forall r, In r rows -> length r = 1%nat) -> rows_sortedb bytes_ltb rows = true ->
+  reduce_spans (fun (_:Z) l => f l) (spans_ref rneqb rows) vals = agg_ref f rows vals.
+Proof.
+  intros Hl H1 Hs. pose proof (rows_sortedb_SS rows 1 H1 Hs) as SS.
+  destruct (sorted_input_unchanged dv rows vals Hl SS) as [E1 E2].
+  rewrite <- (sorted_spans_reduce dv f rows vals Hl). rewrite E1, E2. reflexivity.
+Qed.
+
+Lemma sorted_rows_count rows :
+  (forall r, In r rows -> length r = 1%nat) -> rows_sortedb bytes_ltb rows = true ->
+  count_ref (spans_ref rneqb rows) = agg_ref (@len (list cell)) rows rows.
+Proof.
+  intros H1 Hs. pose proof (rows_sortedb_SS rows 1 H1 Hs) as SS.
+  destruct (sorted_input_unchanged [] rows rows eq_refl SS) as [E1 _].
+  rewrite <- (sorted_spans_count (V:=list cell) [] rows rows eq_refl). rewrite E1. reflexivity.
+Qed.
+
+Lemma reduce_spans_ext {A R} (f1 f2:Z -> list A -> R) sp xs :
+  (forall a l, f1 a l = f2 a l) -> reduce_spans f1 sp xs = reduce_spans f2 sp xs.
+Proof. intros H. unfold reduce_spans. apply map_ext. intros ab. apply H. Qed.
+
+Lemma agg_ref_ext {A B} (f1 f2:list A -> B) kr vals :
+  (forall l, f1 l = f2 l) -> agg_ref f1 kr vals = agg_ref f2 kr vals.
+Proof. intros H. unfold agg_ref, agg_by. apply map_ext. intros k. apply H. Qed.
+
+(* Session.aggregate_min/max/first/last(index, target, dest) *)
+Theorem session_aggregate_correct_pf a index target dest r :
+  column_okb index = true -> session_aggregate_ref (Some a) index target = Some r ->
+  session_aggregate a index target dest = Ok (r, write_dest dest r).
+Proof.
+  intros Hok Href. unfold session_aggregate_ref in Href. cbn zeta in Href.
+  set (rows := index_rows index) in *.
+  destruct (len target =? len rows) eqn:El; cbn [negb] in Href; [|discriminate]. apply Z.eqb_eq in El.
+  unfold session_aggregate. rewrite (field_get_spans_rows index Hok). cbn [bind]. fold rows.
+  destruct (spans_ref_is_spans [] rneqb rneqb_spec rows) as (Hss & Hl1 & H0 & Hlast & _).
+  set (sp := spans_ref rneqb rows) in *.
+  rewrite session_apply_spans_src_ok_pf by (try exact Hl1; rewrite Hlast; symmetry; exact El).
+  fold (kernel_Z a). rewrite kernel_Z_ref.
+  2:{ unfold valid_spans. rewrite El. repeat split; try assumption; lia. }
+  cbn [bind].
+  assert (E : reduce_spans (fun (_:Z) l => agg_scalar a l) sp target = r).
+  { destruct (rows_sortedb bytes_ltb rows) eqn:Es; inversion Href; subst r; clear Href.
+    - unfold sp. rewrite (sorted_rows_reduce 0 (agg_scalar a) rows target).
+      + apply agg_ref_ext. intros l. symmetry. apply agg_cells_scalar.
+      + unfold len in El. lia.
+      + apply index_rows_len1.
+      + exact Es.
+    - rewrite runs_spans_eq. fold sp. apply reduce_spans_ext. intros _ l. symmetry. apply agg_cells_scalar. }
+  rewrite E. reflexivity.
+Qed.
+
+(* Session.aggregate_count(index, dest) *)
+Theorem session_aggregate_count_correct_pf index target dest r :
+  column_okb index = true -> session_aggregate_ref None index target = Some r ->
+  session_aggregate_count index dest = Ok (r, write_dest dest r).
+Proof.
+  intros Hok Href. unfold session_aggregate_ref in Href. cbn zeta in Href.
+  set (rows := index_rows index) in *.
+  unfold session_aggregate_count. rewrite (field_get_spans_rows index Hok). cbn [bind]. fold rows.
+  destruct (spans_ref_is_spans [] rneqb rneqb_spec rows) as (Hss & Hl1 & _).
+  rewrite apply_spans_count_ref by exact Hl1. cbn [bind].
+  assert (E : count_ref (spans_ref rneqb rows) = r).
+  { destruct (rows_sortedb bytes_ltb rows) eqn:Es; inversion Href; subst r; clear Href.
+    - apply sorted_rows_count; [apply index_rows_len1|exact Es].
+    - rewrite runs_spans_eq. reflexivity. }
+  rewrite E. reflexivity.
+Qed.
+
+(* ================================================================== F. Session.distinct *)
+Lemma np_unique_rows_groups kr : np_unique_rows kr = groups kr.
+Proof.
+  unfold np_unique_rows.
+  change (drop_adjacent_dups row_eqb (map (fun p => nthd [] kr p) (argsort (lex_le cell_le) kr)))
+    with (drop_adjacent_dups (keqb GroupSpec.rowle) (sort_rows kr)).
+  pose proof (sort_pairs (V:=list cell) [] kr kr eq_refl) as Hp.
+  assert (E : sort_rows kr = map fst (ksort GroupSpec.rowle (combine kr kr))).
+  { rewrite <- Hp. rewrite map_fst_combine by apply sort_lengths. reflexivity. }
+  rewrite E. rewrite (sorted_keys_dedup GroupSpec.rowle grow_trans grow_total grow_antisym).
+  rewrite map_fst_combine by reflexivity. reflexivity.
+Qed.
+
+Theorem session_distinct_correct_pf fields r :
+  session_distinct_ref fields = Some r -> session_distinct fields = Ok r.
+Proof.
+  unfold session_distinct_ref, session_distinct. destruct fields as [|f0 t]; [discriminate|].
+  destruct (forallb (fun c => len c =? len f0) (f0 :: t)) eqn:E; [|discriminate].
+  cbn [negb]. intros H. inversion H; subst r; clear H. f_equal.
+  rewrite np_unique_rows_groups.
+  replace (map (fun i => map (fun c => nthd [] c i) (f0 :: t)) (iota 0 (length f0)))
+    with (FilterIndexSpec.rows_of (len f0) (f0 :: t)); [reflexivity|].
+  unfold FilterIndexSpec.rows_of, FilterIndexSpec.row_at, len. rewrite Nat2Z.id. reflexivity.
+Qed.
